@@ -8,6 +8,18 @@ PY = '/venv/bin/python'
 
 MC = 'model_checking'
 CHECKS = {
+    'C08': (MC, 'explicit-state BFS over the real Interpreter with contract probes on every state/transition, plus exhaustive single-fault injection (every condition evaluation made to fail in turn)',
+            'Every skeleton chart (<=4-5 states) carries 2 pre/2 post/2 invariant probes on every state and transition; for every (state, op) of the complete BFS (incl. empty steps and None calls) the clean log must be the documented evaluation sequence with the documented __old__ values, and for every evaluation j a run with that evaluation false must raise the right error class with the right owner and condition and run nothing afterwards.',
+            'Both placements of transition pre-conditions/invariants relative to the exit code are accepted; relies on C03 for the truth of the MacroStep.',
+            '§4 C08'),
+    'C09': (MC, 'lock-step differential exploration: complete BFS with contracts on, every (state, op) replayed under ignore_contract=True; shipped contract charts explored by BFS in lock-step',
+            'Generated charts with contract probes and sends everywhere: macro steps per micro step, configurations, contexts, sent events and meta-event streams must be identical with and without contract checking; under ignore_contract no condition is evaluated and no ContractError raised even when every condition is false. The shipped elevator_contract and microwave_with_contracts charts are explored to depth 6-8 over their own alphabet in lock-step.',
+            'Differential oracle; condition code is side-effect free (DESIGN.md §2).',
+            '§4 C09'),
+    'C10': (MC, 'explicit-state BFS over monitored charts with recording listeners and, for every meta-event index i, a property statechart final at i (exhaustive fault-point enumeration)',
+            'For every (state, op) of the complete BFS of every skeleton chart (<=4-5 states; send, delayed send, notify and clock moves in fragments): the unified log of fragments and meta-events equals the sequence derived from the MacroStep, a bound recording property statechart sees the same stream with its clock at the step time, the monitored run equals the unmonitored one, and a property statechart that turns final at the i-th meta-event (every i) makes that very call raise PropertyStatechartError with nothing run afterwards.',
+            "The deprecated 'delayed event sent' meta-event is ignored; relies on C03 for the truth of the MacroStep.",
+            '§4 C10'),
     'C07': (MC, 'differential explicit-state exploration: every (state, op) of the base chart BFS replayed on all declaration variants in-process, plus run digests recomputed in subprocesses under several PYTHONHASHSEED values',
             'Every skeleton chart (<=5-6 states) is built in all sibling-permutation / transition-order / API-vs-YAML variants; each (state, op) of the complete base BFS is replayed on every variant and twice on the base; macro-step signatures (event, transitions, exit/entry order, sent events, context, error class) must be identical. A digest of a whole exploration of the deep-history+orthogonal skeletons (<=7 states) is recomputed in fresh processes per hash seed.',
             'No hand-written expectation (differential). A finite set of hash seeds; sibling permutations are sampled one group at a time above 24 combinations.',
